@@ -1,5 +1,6 @@
 (* Props/C02.v — C02: closing and reopening a store preserves exactly its contents, deletions included. *)
 From BC Require Import Store.Engine Store.Log Store.Inv Store.Refine Store.Merge Store.Theorems Store.Pinned.
+From BC Require Resp.Frame Resp.Conn Resp.Handler Resp.HandlerProofs Resp.OverEngine.
 Open Scope N_scope.
 
 (* 1. After any history (here: any state reachable by a ready script, so also histories with merges),
@@ -48,3 +49,16 @@ Print Assumptions C02_pinned_refuted.
 Example C02_example : let s := fst (fst (run (mkCfg 30 false 1 1 1000 0) init [OSet [107] [118]; ODel [107]; OSet [97] [1]; OSet [97] [2]])) in
   abs (reopens s 3) [107] = None /\ abs (reopens s 3) [97] = Some [2].
 Proof. vm_compute. split; reflexivity. Qed.
+
+(* ... for the SERVER (Resp/OverEngine.v): a first connection sends anything at all; the server is restarted cleanly; a
+   second connection with well-formed requests is answered, byte for byte, from the map the first one left — deletions
+   included — and the engine ends denoting the map after both. *)
+Theorem C02_server_restart : forall c segs1 rs2 es2 segs2, Forall (fun r => Resp.Handler.wf_req r = true) rs2 ->
+  Forall2 (fun r e => Resp.Frame.enc (Resp.Handler.frame_of_req r) = Resp.Frame.Ok e) rs2 es2 -> concat segs2 = concat es2 ->
+  let '(_, s1, _) := Resp.OverEngine.handle_e c init (Resp.Conn.read_all (Resp.Frame.fixed Resp.Frame.Release) segs1 []) [] in
+  let m1 := Resp.HandlerProofs.apply_all [] (Resp.HandlerProofs.accepted (Resp.Conn.read_all (Resp.Frame.fixed Resp.Frame.Release) segs1 [])) in
+  exists s1' t, reopen s1 = ROk (s1', tt, t) /\
+    let '(out2, s2, t2) := Resp.OverEngine.handle_e c s1' (Resp.Conn.read_all (Resp.Frame.fixed Resp.Frame.Release) segs2 []) [] in
+    out2 = fst (Resp.HandlerProofs.spec_out m1 rs2) /\ t2 = Resp.Handler.TClosed /\ Resp.OverEngine.denotes s2 (snd (Resp.HandlerProofs.spec_out m1 rs2)).
+Proof. exact Resp.OverEngine.two_lives. Qed.
+Print Assumptions C02_server_restart.
